@@ -52,13 +52,12 @@ func (simValidator) Validate(key string, value []byte) error {
 	return nil
 }
 
+// simBetter: a ranks strictly above b. Values of one rank with different bytes (another junk part) tie: Select then keeps
+// the first of them, as validators do whose order is not total (e.g. two signed records with the same sequence number).
 func simBetter(a, b []byte) bool {
 	ra, _, _ := simParse(a)
 	rb, _, _ := simParse(b)
-	if ra != rb {
-		return ra > rb
-	}
-	return string(a) > string(b)
+	return ra > rb
 }
 
 func (simValidator) Select(key string, vals [][]byte) (int, error) {
@@ -79,11 +78,15 @@ func simValidatorOpt() Option {
 }
 
 // valueOf builds the record a simulated peer serves for key according to its Val code.
-func valueOf(code int, key string, peerIdx int) *recpb.Record {
+func valueOf(code int, key string, variant int) *recpb.Record {
 	tag := strings.TrimPrefix(key, "/v/")
 	switch {
 	case code >= 1:
-		return &recpb.Record{Key: []byte(key), Value: simValue(code, tag, "")}
+		junk := ""
+		if variant > 0 {
+			junk = fmt.Sprintf("variant%d", variant) // same rank, other bytes: a tie under Select
+		}
+		return &recpb.Record{Key: []byte(key), Value: simValue(code, tag, junk)}
 	case code == -1:
 		return &recpb.Record{Key: []byte(key), Value: simValue(5, "othertag", "")}
 	case code == -2:
@@ -103,7 +106,7 @@ func stdHook(s *lkSc) respondHook {
 	return func(p *lkPeer, n int, req *pb.Message, base *pb.Message) *verifnet.Reply {
 		switch req.Type {
 		case pb.Message_GET_VALUE:
-			base.Record = valueOf(p.Val, string(req.Key), p.ID)
+			base.Record = valueOf(p.Val, string(req.Key), p.ValVar)
 		case pb.Message_GET_PROVIDERS:
 			for _, x := range p.Provs {
 				idx := s.ref(x)
